@@ -24,7 +24,8 @@ Cases == Data.cases
 N == Len(Cases)
 
 VARIABLE tid
-Init == \E t \in 1..N : tid = t /\ InitCase([fam |-> Data.fams[Cases[t].f], T |-> Cases[t].T, items |-> Cases[t].items])
+TraceFamOf(c) == Data.fams[c.f]    \* FamOf <- TraceFamOf in the cfg: the family is not part of the state
+Init == \E t \in 1..N : tid = t /\ InitCase([f |-> Cases[t].f, T |-> Cases[t].T, items |-> Cases[t].items])
 TNext == Next /\ UNCHANGED tid
 
 Say(idx, clause) == PrintT(<<"R", idx, clause>>)
@@ -45,8 +46,8 @@ Check == Done =>
                               ELSE IF p = RefOf([stale |-> FALSE, nokw |-> TRUE]) THEN "ref-dev-nokw"
                               ELSE IF p = RefOf(CodeDev) THEN "ref-dev-both" ELSE "ref")
      /\ (p = AlgParsed) \/ Say(tid, "alg")
-     /\ (o.ok /\ o.inst = "ok") => (LogOK(cs.fam, o.v, o.log, o.root, o.rtype) \/ Say(tid, "ref-log"))
-     /\ (o.ok /\ o.inst = "raise") => Say(tid, IF Unchecked(cs.fam, o.v) THEN "ref-inst-raise-nokw" ELSE "ref-inst-raise")
+     /\ (o.ok /\ o.inst = "ok") => (LogOK(FamOf(cs), o.v, o.log, o.root, o.rtype) \/ Say(tid, "ref-log"))
+     /\ (o.ok /\ o.inst = "raise") => Say(tid, IF Unchecked(FamOf(cs), o.v) THEN "ref-inst-raise-nokw" ELSE "ref-inst-raise")
      /\ (c.pair # 0) => ((ObsParsed(Cases[c.pair].obs) = p) \/ Say(tid, "ref-pair"))
      /\ (p = ref /\ p = AlgParsed) \/ PrintT(ToJson([explain |-> tid, ref |-> ref, alg |-> AlgParsed]))       \* what the spec expected (for the report)
      /\ PrintT(<<"D", tid>>)
